@@ -1,18 +1,832 @@
 // Package instr is the source instrumenter of engine E1 (see DESIGN.md §2.1).
+//
+// It loads the current working tree of the repository (plus the harness files layered over it)
+// with full type information, rewrites concurrency, time, context and randomness constructs of
+// every package of the module into calls of the controlled-scheduler runtime (internal/verif/vrt)
+// and returns an overlay that maps every original file to its rewritten copy.
 package instr
 
-import "fmt"
+import (
+	"bytes"
+	"encoding/json"
+	"fmt"
+	"go/ast"
+	"go/printer"
+	"go/token"
+	"go/types"
+	"os"
+	"path/filepath"
+	"sort"
+	"strings"
+
+	"golang.org/x/tools/go/ast/astutil"
+	"golang.org/x/tools/go/packages"
+)
+
+const (
+	modPath = "github.com/sheerbytes/sheerbytes"
+	vrtPath = modPath + "/internal/verif/vrt"
+)
 
 type Config struct {
 	RepoDir  string
 	OutDir   string
-	Overlay  map[string]string
+	Overlay  map[string]string // virtual path -> real file
 	Env      []string
 	Patterns []string
-	Probes   []string
+	Probes   []string // "pkgpath.Recv.Method" or "pkgpath.Func": emit vrt.Emit at entry/exit
+	FsPoints bool     // rewrite file-system calls into vrt wrappers (kill/fault points)
+	Skip     []string // package path prefixes left untouched
+	Modfile  string   // alternative go.mod (-modfile) or ""
 }
 
-// Run instruments the packages and returns the overlay including rewritten files.
+// Run instruments and returns the overlay including rewritten files.
 func Run(cfg Config) (map[string]string, error) {
-	return nil, fmt.Errorf("instrumenter not built yet")
+	ov := map[string][]byte{}
+	for virt, real := range cfg.Overlay {
+		b, err := os.ReadFile(real)
+		if err != nil {
+			return nil, err
+		}
+		ov[virt] = b
+	}
+	fset := token.NewFileSet()
+	pc := &packages.Config{
+		Mode: packages.NeedName | packages.NeedFiles | packages.NeedCompiledGoFiles | packages.NeedSyntax |
+			packages.NeedTypes | packages.NeedTypesInfo | packages.NeedImports | packages.NeedDeps | packages.NeedModule,
+		Dir: cfg.RepoDir, Env: append(os.Environ(), cfg.Env...), Fset: fset, Overlay: ov,
+		BuildFlags: []string{"-tags=verif"},
+	}
+	if cfg.Modfile != "" {
+		pc.BuildFlags = append(pc.BuildFlags, "-modfile="+cfg.Modfile)
+	}
+	roots, err := packages.Load(pc, cfg.Patterns...)
+	if err != nil {
+		return nil, err
+	}
+	var errs []string
+	seen := map[string]*packages.Package{}
+	var visit func(p *packages.Package)
+	visit = func(p *packages.Package) {
+		if seen[p.PkgPath] != nil {
+			return
+		}
+		if !strings.HasPrefix(p.PkgPath, modPath) {
+			return
+		}
+		seen[p.PkgPath] = p
+		for _, e := range p.Errors {
+			errs = append(errs, e.Error())
+		}
+		for _, ip := range p.Imports {
+			visit(ip)
+		}
+	}
+	for _, r := range roots {
+		visit(r)
+	}
+	if len(errs) > 0 {
+		if len(errs) > 12 {
+			errs = errs[:12]
+		}
+		return nil, fmt.Errorf("load errors:\n%s", strings.Join(errs, "\n"))
+	}
+	out := map[string]string{}
+	for k, v := range cfg.Overlay {
+		out[k] = v
+	}
+	paths := make([]string, 0, len(seen))
+	for p := range seen {
+		paths = append(paths, p)
+	}
+	sort.Strings(paths)
+	probes := map[string]bool{}
+	for _, p := range cfg.Probes {
+		probes[p] = true
+	}
+	for _, pp := range paths {
+		p := seen[pp]
+		if strings.HasPrefix(pp, modPath+"/internal/verif/") {
+			continue
+		}
+		skip := false
+		for _, s := range cfg.Skip {
+			if strings.HasPrefix(pp, s) {
+				skip = true
+			}
+		}
+		if skip {
+			continue
+		}
+		rw := &rewriter{pkg: p, fset: fset, info: p.TypesInfo, probes: probes, fsPoints: cfg.FsPoints}
+		dir := filepath.Join(cfg.OutDir, strings.ReplaceAll(strings.TrimPrefix(pp, modPath), "/", "_"))
+		if err := os.MkdirAll(dir, 0755); err != nil {
+			return nil, err
+		}
+		for i, f := range p.Syntax {
+			src := p.CompiledGoFiles[i]
+			if !strings.HasSuffix(src, ".go") {
+				continue
+			}
+			rw.file(f)
+			f.Comments = nil
+			stripDocs(f)
+			var buf bytes.Buffer
+			if err := printer.Fprint(&buf, fset, f); err != nil {
+				return nil, fmt.Errorf("print %s: %w", src, err)
+			}
+			dst := filepath.Join(dir, filepath.Base(src))
+			if err := os.WriteFile(dst, buf.Bytes(), 0644); err != nil {
+				return nil, err
+			}
+			out[src] = dst
+		}
+		// package-level state reset
+		if reset := rw.resetFile(); reset != nil && !strings.Contains(pp, "/cmd/verif_") {
+			dst := filepath.Join(dir, "zz_verif_reset.go")
+			if err := os.WriteFile(dst, reset, 0644); err != nil {
+				return nil, err
+			}
+			pdir := filepath.Dir(p.CompiledGoFiles[0])
+			out[filepath.Join(pdir, "zz_verif_reset.go")] = dst
+		}
+		if len(rw.errs) > 0 {
+			return nil, fmt.Errorf("instrument %s: %s", pp, strings.Join(rw.errs, "; "))
+		}
+	}
+	for p := range probes {
+		if !probesHit[p] {
+			return nil, fmt.Errorf("probe %q matched nothing", p)
+		}
+	}
+	b, _ := json.MarshalIndent(out, "", " ")
+	os.WriteFile(filepath.Join(cfg.OutDir, "files.json"), b, 0644)
+	return out, nil
+}
+
+var probesHit = map[string]bool{}
+
+type rewriter struct {
+	pkg      *packages.Package
+	fset     *token.FileSet
+	info     *types.Info
+	selN     int
+	goN      int
+	used     bool
+	errs     []string
+	probes   map[string]bool
+	fsPoints bool
+}
+
+func sel(x, name string) ast.Expr {
+	return &ast.SelectorExpr{X: ast.NewIdent(x), Sel: ast.NewIdent(name)}
+}
+func call(fn ast.Expr, args ...ast.Expr) *ast.CallExpr { return &ast.CallExpr{Fun: fn, Args: args} }
+func id(n string) *ast.Ident                           { return ast.NewIdent(n) }
+
+func (r *rewriter) isChan(e ast.Expr) bool {
+	t := r.info.TypeOf(e)
+	if t == nil {
+		return false
+	}
+	_, ok := t.Underlying().(*types.Chan)
+	return ok
+}
+
+func (r *rewriter) chanDir(e ast.Expr) types.ChanDir {
+	t := r.info.TypeOf(e)
+	if c, ok := t.Underlying().(*types.Chan); ok {
+		return c.Dir()
+	}
+	return types.SendRecv
+}
+
+func (r *rewriter) isMap(e ast.Expr) bool {
+	t := r.info.TypeOf(e)
+	if t == nil {
+		return false
+	}
+	_, ok := t.Underlying().(*types.Map)
+	return ok
+}
+
+func (r *rewriter) pkgOf(s *ast.SelectorExpr) string {
+	idn, ok := s.X.(*ast.Ident)
+	if !ok {
+		return ""
+	}
+	if pn, ok := r.info.Uses[idn].(*types.PkgName); ok {
+		return pn.Imported().Path()
+	}
+	return ""
+}
+
+var syncTypes = map[string]bool{"Mutex": true, "RWMutex": true, "Once": true, "WaitGroup": true, "Pool": true, "Map": true}
+var timeFuncs = map[string]bool{"Now": true, "Since": true, "Until": true, "After": true, "AfterFunc": true, "NewTimer": true,
+	"NewTicker": true, "Sleep": true, "Timer": true, "Ticker": true}
+var ctxFuncs = map[string]bool{"WithCancel": true, "WithTimeout": true, "WithDeadline": true}
+var atomicFuncs = map[string]string{}
+
+func init() {
+	for _, t := range []string{"Int32", "Int64", "Uint32", "Uint64", "Uintptr"} {
+		atomicFuncs["Add"+t] = "AtomicAdd"
+		atomicFuncs["Load"+t] = "AtomicLoad"
+		atomicFuncs["Store"+t] = "AtomicStore"
+		atomicFuncs["Swap"+t] = "AtomicSwap"
+		atomicFuncs["CompareAndSwap"+t] = "AtomicCAS"
+	}
+}
+
+var fsFuncs = map[string]string{"WriteFile": "OsWriteFile", "Rename": "OsRename", "Remove": "OsRemove", "RemoveAll": "OsRemoveAll",
+	"MkdirAll": "OsMkdirAll", "Mkdir": "OsMkdir", "OpenFile": "OsOpenFile", "Create": "OsCreate", "Truncate": "OsTruncate"}
+var fileMethods = map[string]string{"WriteAt": "FileWriteAt", "Write": "FileWrite", "Truncate": "FileTruncate", "Close": "FileClose", "Sync": "FileSync"}
+
+func (r *rewriter) file(f *ast.File) {
+	r.used = false
+	info := r.info
+	skip := map[ast.Node]bool{}
+	astutil.Apply(f, func(c *astutil.Cursor) bool {
+		if s, ok := c.Node().(*ast.SelectStmt); ok {
+			for _, cl := range s.Body.List {
+				cc := cl.(*ast.CommClause)
+				switch st := cc.Comm.(type) {
+				case *ast.ExprStmt:
+					skip[unparen(st.X)] = true
+				case *ast.AssignStmt:
+					skip[unparen(st.Rhs[0])] = true
+					skip[st] = true
+				case *ast.SendStmt:
+					skip[st] = true
+				}
+			}
+		}
+		return true
+	}, func(c *astutil.Cursor) bool {
+		switch n := c.Node().(type) {
+		case *ast.FuncDecl:
+			r.probe(n)
+		case *ast.GoStmt:
+			r.used = true
+			c.Replace(r.rewriteGo(n))
+		case *ast.SendStmt:
+			if skip[n] {
+				return true
+			}
+			r.used = true
+			c.Replace(&ast.ExprStmt{X: call(sel("vrt", "Send"), n.Chan, n.Value)})
+		case *ast.UnaryExpr:
+			if n.Op != token.ARROW || skip[n] {
+				return true
+			}
+			r.used = true
+			c.Replace(call(sel("vrt", "Recv"), n.X))
+		case *ast.AssignStmt:
+			if skip[n] {
+				return true
+			}
+			if len(n.Lhs) == 2 && len(n.Rhs) == 1 {
+				if ce, ok := n.Rhs[0].(*ast.CallExpr); ok {
+					if se, ok := ce.Fun.(*ast.SelectorExpr); ok && se.Sel.Name == "Recv" {
+						if idn, ok := se.X.(*ast.Ident); ok && idn.Name == "vrt" {
+							se.Sel.Name = "Recv2"
+						}
+					}
+				}
+			}
+		case *ast.ValueSpec:
+			if len(n.Names) == 2 && len(n.Values) == 1 {
+				if ce, ok := n.Values[0].(*ast.CallExpr); ok {
+					if se, ok := ce.Fun.(*ast.SelectorExpr); ok && se.Sel.Name == "Recv" {
+						if idn, ok := se.X.(*ast.Ident); ok && idn.Name == "vrt" {
+							se.Sel.Name = "Recv2"
+						}
+					}
+				}
+			}
+		case *ast.RangeStmt:
+			if r.isChan(n.X) {
+				r.used = true
+				n.X = call(sel("vrt", "RangeChan"), n.X)
+			} else if r.isMap(n.X) {
+				r.used = true
+				n.X = call(sel("vrt", "RangeMap"), n.X)
+			}
+		case *ast.CallExpr:
+			if idn, ok := n.Fun.(*ast.Ident); ok && idn.Name == "close" {
+				if _, isBuiltin := info.Uses[idn].(*types.Builtin); isBuiltin {
+					r.used = true
+					if len(n.Args) == 1 && r.chanDir(n.Args[0]) == types.SendOnly {
+						n.Fun = sel("vrt", "CloseSendOnly")
+					} else {
+						n.Fun = sel("vrt", "Close")
+					}
+				}
+			}
+			if r.fsPoints {
+				if se, ok := n.Fun.(*ast.SelectorExpr); ok {
+					if s := info.Selections[se]; s != nil && s.Kind() == types.MethodVal {
+						if isOsFile(s.Recv()) {
+							if w, ok := fileMethods[se.Sel.Name]; ok {
+								r.used = true
+								n.Args = append([]ast.Expr{se.X}, n.Args...)
+								n.Fun = sel("vrt", w)
+							}
+						}
+					}
+				}
+			}
+		case *ast.SelectorExpr:
+			switch r.pkgOf(n) {
+			case "sync":
+				if syncTypes[n.Sel.Name] {
+					r.used = true
+					c.Replace(sel("vrt", n.Sel.Name))
+				}
+			case "sync/atomic":
+				if w, ok := atomicFuncs[n.Sel.Name]; ok {
+					r.used = true
+					c.Replace(sel("vrt", w))
+				} else {
+					r.errs = append(r.errs, "unsupported sync/atomic."+n.Sel.Name)
+				}
+			case "time":
+				if timeFuncs[n.Sel.Name] {
+					r.used = true
+					c.Replace(sel("vrt", n.Sel.Name))
+				}
+			case "context":
+				if ctxFuncs[n.Sel.Name] {
+					r.used = true
+					c.Replace(sel("vrt", n.Sel.Name))
+				}
+			case "crypto/rand":
+				switch n.Sel.Name {
+				case "Read":
+					r.used = true
+					c.Replace(sel("vrt", "RandRead"))
+				case "Reader":
+					r.used = true
+					c.Replace(sel("vrt", "RandReader"))
+				}
+			case "os":
+				if n.Sel.Name == "Exit" {
+					r.used = true
+					c.Replace(sel("vrt", "Exit"))
+				} else if r.fsPoints {
+					if w, ok := fsFuncs[n.Sel.Name]; ok {
+						r.used = true
+						c.Replace(sel("vrt", w))
+					}
+				}
+			}
+		case *ast.SelectStmt:
+			r.used = true
+			r.rewriteSelect(c, n)
+		}
+		return true
+	})
+	if r.used {
+		astutil.AddNamedImport(r.fset, f, "vrt", vrtPath)
+	}
+	for _, imp := range []string{"sync", "sync/atomic", "time", "context", "crypto/rand", "os"} {
+		if !astutil.UsesImport(f, imp) {
+			astutil.DeleteImport(r.fset, f, imp)
+			// named imports of the same path
+			for _, is := range f.Imports {
+				if is.Name != nil && strings.Trim(is.Path.Value, `"`) == imp && is.Name.Name != "_" {
+					if !usesName(f, is.Name.Name) {
+						astutil.DeleteNamedImport(r.fset, f, is.Name.Name, imp)
+					}
+				}
+			}
+		}
+	}
+}
+
+func usesName(f *ast.File, name string) bool {
+	used := false
+	ast.Inspect(f, func(n ast.Node) bool {
+		if se, ok := n.(*ast.SelectorExpr); ok {
+			if idn, ok := se.X.(*ast.Ident); ok && idn.Name == name && idn.Obj == nil {
+				used = true
+			}
+		}
+		return true
+	})
+	return used
+}
+
+func isOsFile(t types.Type) bool {
+	if p, ok := t.(*types.Pointer); ok {
+		t = p.Elem()
+	}
+	if n, ok := t.(*types.Named); ok {
+		return n.Obj().Pkg() != nil && n.Obj().Pkg().Path() == "os" && n.Obj().Name() == "File"
+	}
+	return false
+}
+
+func unparen(e ast.Expr) ast.Expr {
+	for {
+		p, ok := e.(*ast.ParenExpr)
+		if !ok {
+			return e
+		}
+		e = p.X
+	}
+}
+
+// rewriteGo turns `go f(a, b)` into `{ _f := f; _a0 := a; _a1 := b; vrt.Go(func(){ _f(_a0,_a1) }) }`.
+func (r *rewriter) rewriteGo(g *ast.GoStmt) ast.Stmt {
+	r.goN++
+	base := fmt.Sprintf("_vg%d", r.goN)
+	var pre []ast.Stmt
+	callExpr := g.Call
+	fun := unparen(callExpr.Fun)
+	newFun := callExpr.Fun
+	switch fn := fun.(type) {
+	case *ast.FuncLit:
+	default:
+		bind := true
+		switch f2 := fn.(type) {
+		case *ast.Ident:
+			if _, ok := r.info.Uses[f2].(*types.Func); ok {
+				bind = false
+			}
+			if _, ok := r.info.Uses[f2].(*types.Builtin); ok {
+				bind = false
+			}
+		case *ast.SelectorExpr:
+			if r.pkgOf(f2) != "" {
+				bind = false
+			}
+			if idn, ok := f2.X.(*ast.Ident); ok && idn.Name == "vrt" {
+				bind = false
+			}
+		case *ast.IndexExpr, *ast.IndexListExpr:
+			bind = false
+		}
+		if tv, ok := r.info.Types[fn]; ok && tv.IsType() {
+			bind = false
+		}
+		if bind {
+			pre = append(pre, &ast.AssignStmt{Lhs: []ast.Expr{id(base + "f")}, Tok: token.DEFINE, Rhs: []ast.Expr{callExpr.Fun}})
+			newFun = id(base + "f")
+		}
+	}
+	args := make([]ast.Expr, len(callExpr.Args))
+	for i, a := range callExpr.Args {
+		tv := r.info.Types[a]
+		inline := tv.Value != nil || tv.IsNil()
+		if _, ok := unparen(a).(*ast.FuncLit); ok {
+			inline = true
+		}
+		if t := r.info.TypeOf(a); t != nil {
+			if b, ok := t.(*types.Basic); ok && b.Info()&types.IsUntyped != 0 {
+				inline = true
+			}
+			if _, ok := t.(*types.Tuple); ok {
+				inline = true
+			}
+		} else {
+			inline = true // already rewritten node without type info (e.g. vrt.Recv(...)): evaluate in the closure
+			// evaluating a receive late would change semantics; bind it through a typed temp is impossible
+			// without its type, so fall back to := which infers it.
+			inline = false
+		}
+		if inline {
+			args[i] = a
+			continue
+		}
+		name := fmt.Sprintf("%sa%d", base, i)
+		pre = append(pre, &ast.AssignStmt{Lhs: []ast.Expr{id(name)}, Tok: token.DEFINE, Rhs: []ast.Expr{a}})
+		args[i] = id(name)
+	}
+	nc := &ast.CallExpr{Fun: newFun, Args: args, Ellipsis: callExpr.Ellipsis}
+	if callExpr.Ellipsis == token.NoPos {
+		nc.Ellipsis = token.NoPos
+	} else {
+		nc.Ellipsis = 1
+	}
+	body := &ast.BlockStmt{List: []ast.Stmt{&ast.ExprStmt{X: nc}}}
+	goCall := &ast.ExprStmt{X: call(sel("vrt", "Go"), &ast.FuncLit{Type: &ast.FuncType{Params: &ast.FieldList{}}, Body: body})}
+	if len(pre) == 0 {
+		return goCall
+	}
+	return &ast.BlockStmt{List: append(pre, goCall)}
+}
+
+func (r *rewriter) rewriteSelect(c *astutil.Cursor, s *ast.SelectStmt) {
+	r.selN++
+	base := fmt.Sprintf("_vs%d", r.selN)
+	var pre []ast.Stmt
+	var caseArgs []ast.Expr
+	hasDefault := "false"
+	sw := &ast.SwitchStmt{Tag: sel(base, "Index"), Body: &ast.BlockStmt{}}
+	k := 0
+	for _, cl := range s.Body.List {
+		cc := cl.(*ast.CommClause)
+		if cc.Comm == nil {
+			hasDefault = "true"
+			sw.Body.List = append(sw.Body.List, &ast.CaseClause{Body: cc.Body}) // default: keeps the statement terminating
+			continue
+		}
+		cname := fmt.Sprintf("%sc%d", base, k)
+		var chExpr ast.Expr
+		var body []ast.Stmt
+		switch st := cc.Comm.(type) {
+		case *ast.ExprStmt:
+			chExpr = unparen(st.X).(*ast.UnaryExpr).X
+			caseArgs = append(caseArgs, call(sel("vrt", "CaseRecv"), id(cname)))
+		case *ast.AssignStmt:
+			chExpr = unparen(st.Rhs[0]).(*ast.UnaryExpr).X
+			caseArgs = append(caseArgs, call(sel("vrt", "CaseRecv"), id(cname)))
+			fn := "RecvValue"
+			if len(st.Lhs) == 2 {
+				fn = "RecvValue2"
+			}
+			body = append(body, &ast.AssignStmt{Lhs: st.Lhs, Tok: st.Tok, Rhs: []ast.Expr{call(sel("vrt", fn), id(cname), id(base))}})
+			// silence "declared and not used" for variables the original body ignored only via the select
+			if st.Tok == token.DEFINE {
+				for _, l := range st.Lhs {
+					if idn, ok := l.(*ast.Ident); ok && idn.Name != "_" {
+						body = append(body, &ast.AssignStmt{Lhs: []ast.Expr{id("_")}, Tok: token.ASSIGN, Rhs: []ast.Expr{id(idn.Name)}})
+					}
+				}
+			}
+		case *ast.SendStmt:
+			chExpr = st.Chan
+			vname := fmt.Sprintf("%sv%d", base, k)
+			// the value expression is evaluated once, in source order, like the channel expression
+			pre = append(pre, &ast.AssignStmt{Lhs: []ast.Expr{id(cname)}, Tok: token.DEFINE, Rhs: []ast.Expr{chExpr}})
+			chExpr = nil
+			_ = vname
+			caseArgs = append(caseArgs, call(sel("vrt", "CaseSend"), id(cname), st.Value))
+		}
+		if chExpr != nil {
+			pre = append(pre, &ast.AssignStmt{Lhs: []ast.Expr{id(cname)}, Tok: token.DEFINE, Rhs: []ast.Expr{chExpr}})
+		}
+		body = append(body, cc.Body...)
+		sw.Body.List = append(sw.Body.List, &ast.CaseClause{List: []ast.Expr{&ast.BasicLit{Kind: token.INT, Value: fmt.Sprint(k)}}, Body: body})
+		k++
+	}
+	if hasDefault == "false" {
+		sw.Body.List = append(sw.Body.List, &ast.CaseClause{Body: []ast.Stmt{&ast.ExprStmt{X: call(id("panic"), &ast.BasicLit{Kind: token.STRING, Value: `"vrt: unreachable select index"`})}}})
+	}
+	args := append([]ast.Expr{id(hasDefault)}, caseArgs...)
+	pre = append(pre, &ast.AssignStmt{Lhs: []ast.Expr{id(base)}, Tok: token.DEFINE, Rhs: []ast.Expr{call(sel("vrt", "Select"), args...)}})
+	c.Replace(&ast.BlockStmt{List: append(pre, sw)})
+}
+
+// probe inserts vrt.Emit calls at entry and exit of configured functions.
+func (r *rewriter) probe(fd *ast.FuncDecl) {
+	if len(r.probes) == 0 || fd.Body == nil {
+		return
+	}
+	name := r.pkg.PkgPath + "."
+	if fd.Recv != nil && len(fd.Recv.List) == 1 {
+		t := fd.Recv.List[0].Type
+		if st, ok := t.(*ast.StarExpr); ok {
+			t = st.X
+		}
+		if idn, ok := t.(*ast.Ident); ok {
+			name += idn.Name + "."
+		}
+	}
+	name += fd.Name.Name
+	short := strings.TrimPrefix(name, modPath+"/")
+	if !r.probes[short] {
+		return
+	}
+	probesHit[short] = true
+	r.used = true
+	// name results so that a deferred Emit can report them
+	var resNames []ast.Expr
+	if fd.Type.Results != nil {
+		n := 0
+		for _, f := range fd.Type.Results.List {
+			if len(f.Names) == 0 {
+				f.Names = []*ast.Ident{id(fmt.Sprintf("_vr%d", n))}
+			}
+			for i, nm := range f.Names {
+				if nm.Name == "_" {
+					f.Names[i] = id(fmt.Sprintf("_vr%d", n))
+				}
+				resNames = append(resNames, id(f.Names[i].Name))
+				n++
+			}
+		}
+	}
+	var recvArg []ast.Expr
+	if fd.Recv != nil && len(fd.Recv.List) == 1 && len(fd.Recv.List[0].Names) == 1 && fd.Recv.List[0].Names[0].Name != "_" {
+		recvArg = append(recvArg, id(fd.Recv.List[0].Names[0].Name))
+	}
+	var params []ast.Expr
+	for _, f := range fd.Type.Params.List {
+		for _, nm := range f.Names {
+			if nm.Name != "_" {
+				params = append(params, id(nm.Name))
+			}
+		}
+	}
+	enter := &ast.ExprStmt{X: call(sel("vrt", "Emit"), append(append([]ast.Expr{&ast.BasicLit{Kind: token.STRING, Value: fmt.Sprintf("%q", "enter:"+short)}}, recvArg...), params...)...)}
+	exitCall := call(sel("vrt", "Emit"), append(append([]ast.Expr{&ast.BasicLit{Kind: token.STRING, Value: fmt.Sprintf("%q", "exit:"+short)}}, recvArg...), resNames...)...)
+	def := &ast.DeferStmt{Call: call(&ast.FuncLit{Type: &ast.FuncType{Params: &ast.FieldList{}}, Body: &ast.BlockStmt{List: []ast.Stmt{&ast.ExprStmt{X: exitCall}}}})}
+	fd.Body.List = append([]ast.Stmt{enter, def}, fd.Body.List...)
+}
+
+// resetFile generates zz_verif_reset.go: package-level variables are re-initialised (in the
+// package's own initialisation order) at the start of every execution.
+func (r *rewriter) resetFile() []byte {
+	p := r.pkg
+	if p.Types == nil {
+		return nil
+	}
+	scope := p.Types.Scope()
+	inInit := map[*types.Var]bool{}
+	var stmts []string
+	var imports = map[string]string{}
+	qual := func(pkg *types.Package) string {
+		if pkg == p.Types {
+			return ""
+		}
+		name := pkg.Name()
+		if pkg.Path() == vrtPath {
+			return "vrt"
+		}
+		imports[pkg.Path()] = name
+		return name
+	}
+	usable := func(v *types.Var) bool {
+		if v.Name() == "_" {
+			return false
+		}
+		t := v.Type()
+		if !mutableType(t, 0) {
+			return false
+		}
+		return true
+	}
+	// Zero the variables without initialiser first.
+	names := scope.Names()
+	for _, in := range r.info.InitOrder {
+		for _, v := range in.Lhs {
+			inInit[v] = true
+		}
+	}
+	for _, n := range names {
+		v, ok := scope.Lookup(n).(*types.Var)
+		if !ok || inInit[v] || !usable(v) {
+			continue
+		}
+		ts := types.TypeString(v.Type(), qual)
+		if strings.Contains(ts, "sync.") || strings.Contains(ts, "time.Timer") || strings.Contains(ts, "time.Ticker") {
+			// type printed from pre-rewrite type info: map to vrt names
+			ts = strings.NewReplacer("sync.Mutex", "vrt.Mutex", "sync.RWMutex", "vrt.RWMutex", "sync.Once", "vrt.Once", "sync.WaitGroup", "vrt.WaitGroup",
+				"sync.Pool", "vrt.Pool", "sync.Map", "vrt.Map", "time.Timer", "vrt.Timer", "time.Ticker", "vrt.Ticker").Replace(ts)
+			delete(imports, "sync")
+		}
+		stmts = append(stmts, fmt.Sprintf("\t\t%s = *new(%s)", v.Name(), ts))
+	}
+	for _, in := range r.info.InitOrder {
+		ok := true
+		for _, v := range in.Lhs {
+			if !usable(v) {
+				ok = false
+			}
+		}
+		if !ok || usesPkg(r.info, in.Rhs, "flag") {
+			continue
+		}
+		var lhs []string
+		for _, v := range in.Lhs {
+			lhs = append(lhs, v.Name())
+		}
+		var eb bytes.Buffer
+		printer.Fprint(&eb, r.fset, in.Rhs) // already rewritten AST
+		collectImports(r.info, in.Rhs, imports)
+		stmts = append(stmts, fmt.Sprintf("\t\t%s = %s", strings.Join(lhs, ", "), eb.String()))
+	}
+	if len(stmts) == 0 {
+		return nil
+	}
+	var b bytes.Buffer
+	fmt.Fprintf(&b, "package %s\n\nimport (\n\tvrt %q\n", p.Name, vrtPath)
+	ipaths := make([]string, 0, len(imports))
+	for ip := range imports {
+		ipaths = append(ipaths, ip)
+	}
+	sort.Strings(ipaths)
+	for _, ip := range ipaths {
+		if ip == "sync" || ip == vrtPath {
+			continue
+		}
+		fmt.Fprintf(&b, "\t%s %q\n", imports[ip], ip)
+	}
+	b.WriteString(")\n\n")
+	for _, ip := range ipaths {
+		if ip == "sync" || ip == vrtPath {
+			continue
+		}
+		fmt.Fprintf(&b, "var _ = %s.%s\n", imports[ip], anyExported(p, ip))
+	}
+	b.WriteString("\nfunc init() {\n\tvrt.OnReset(func() {\n")
+	b.WriteString(strings.Join(stmts, "\n"))
+	b.WriteString("\n\t})\n}\n")
+	return b.Bytes()
+}
+
+// anyExported returns some exported identifier of an imported package (to keep the import used).
+func anyExported(p *packages.Package, path string) string {
+	ip := p.Imports[path]
+	if ip == nil || ip.Types == nil {
+		return "X"
+	}
+	for _, n := range ip.Types.Scope().Names() {
+		if ast.IsExported(n) {
+			o := ip.Types.Scope().Lookup(n)
+			switch o.(type) {
+			case *types.Func, *types.Var, *types.Const:
+				if f, ok := o.(*types.Func); ok {
+					if f.Type().(*types.Signature).TypeParams() != nil {
+						continue
+					}
+				}
+				return n
+			}
+		}
+	}
+	return "X"
+}
+
+func usesPkg(info *types.Info, e ast.Expr, path string) bool {
+	found := false
+	ast.Inspect(e, func(n ast.Node) bool {
+		if idn, ok := n.(*ast.Ident); ok {
+			if pn, ok := info.Uses[idn].(*types.PkgName); ok && pn.Imported().Path() == path {
+				found = true
+			}
+		}
+		return true
+	})
+	return found
+}
+
+func collectImports(info *types.Info, e ast.Expr, imports map[string]string) {
+	ast.Inspect(e, func(n ast.Node) bool {
+		if idn, ok := n.(*ast.Ident); ok {
+			if pn, ok := info.Uses[idn].(*types.PkgName); ok {
+				imports[pn.Imported().Path()] = pn.Name()
+			}
+		}
+		return true
+	})
+}
+
+// mutableType reports whether a package-level variable of this type can carry state from one
+// execution into the next.
+func mutableType(t types.Type, depth int) bool {
+	if depth > 6 {
+		return true
+	}
+	switch u := t.(type) {
+	case *types.Named:
+		if o := u.Obj(); o.Pkg() != nil {
+			switch o.Pkg().Path() + "." + o.Name() {
+			case "hash/crc32.Table", "flag.FlagSet", "regexp.Regexp", "log/slog.Logger", "os.File":
+				return false
+			}
+		}
+		return mutableType(u.Underlying(), depth+1)
+	case *types.Basic:
+		return true
+	case *types.Pointer:
+		return mutableType(u.Elem(), depth+1)
+	case *types.Interface:
+		return false // errors, io.Reader, ...
+	case *types.Signature:
+		return false
+	}
+	return true
+}
+
+func stripDocs(f *ast.File) {
+	f.Doc = nil
+	ast.Inspect(f, func(n ast.Node) bool {
+		switch x := n.(type) {
+		case *ast.GenDecl:
+			x.Doc = nil
+		case *ast.FuncDecl:
+			x.Doc = nil
+		case *ast.Field:
+			x.Doc, x.Comment = nil, nil
+		case *ast.ValueSpec:
+			x.Doc, x.Comment = nil, nil
+		case *ast.TypeSpec:
+			x.Doc, x.Comment = nil, nil
+		case *ast.ImportSpec:
+			x.Doc, x.Comment = nil, nil
+		}
+		return true
+	})
 }
